@@ -8,15 +8,15 @@ ids = [json.loads(l)['id'] for l in open(os.path.join(ROOT, 'properties.jsonl'))
 # id -> (category, level text, level note (trusted base), technique, design ref)
 CHECKS = {
  'C01': ('exploration',
-         "Reference-model monitor over executions of the real library: held on the K generated NetworkPolicy worlds listed in the evidence, each compared on all workload pairs x 3x65535 points and on every address atom; says nothing about worlds not drawn. Right level because the property is an input-universal semantic equivalence that only an independent executable model observed against real runs can refute.",
+         "Reference-model monitor over executions of the real library: held on the K generated NetworkPolicy worlds and fixture-derived worlds (the shipped manifest directories as shipped, re-emitted and after 1..k single-step edits) listed in the evidence, each compared on all workload pairs x 3x65535 points and on every address atom; says nothing about worlds not drawn. Right level because the property is an input-universal semantic equivalence that only an independent executable model observed against real runs can refute.",
          "Trusts the independent reference model (own selector matcher, CIDR arithmetic, bitsets), the YAML emitter, Go runtime; inputs API-admissible, IPv4.",
          "runtime monitoring: reference-model oracle over observed list results", "DESIGN.md §5 C01"),
  'C02': ('exploration',
-         "Reference-model monitor (ANP>NP>BANP scan semantics of the statement) plus a relational monitor over three document orders of the same policies; held on the K precedence scenarios and random admin worlds in the evidence.",
+         "Reference-model monitor (ANP>NP>BANP scan semantics of the statement) plus a relational monitor over three document orders of the same policies; held on the K precedence scenarios, random admin worlds and fixture-derived worlds (shipped directories with admin policies, as shipped / re-emitted / edited; list and eval routes, the engine built from the objects and filled by InsertObject) in the evidence.",
          "Trusts the reference model's reading of the statement; distinct priorities/names as the API requires.",
          "runtime monitoring: reference-model oracle + order-permutation relational monitor", "DESIGN.md §5 C02"),
  'C04': ('exploration',
-         "Relational monitor over five recorded runs per case (list A, list B, diff AB, diff BA, diff AA): every workload pair and every (workload, address atom, direction) is checked for cover count, type, both connection values and new/lost flags. Held on the K world pairs in the evidence.",
+         "Relational monitor over five recorded runs per case (list A, list B, diff AB, diff BA, diff AA): every workload pair and every (workload, address atom, direction) is checked for cover count, type, both connection values and new/lost flags. Held on the K world pairs and pairs of shipped manifest directories in the evidence.",
          "list results are the reference; atoms come from the range boundaries of both reports and all diff entries.",
          "runtime monitoring: point-wise relational oracle over recorded list/diff runs", "DESIGN.md §5 C04"),
  'C05': ('exploration',
